@@ -209,6 +209,9 @@ bad_nOpts:
       return ReportBadFormat();
   }
   else {         ///////////////// TEXT FORMAT ///////////////
+    // A long line arrives in several chunks: a chunk that only
+    // holds the line end is not the empty line ending the message.
+    bool line_start = true;
     for(;;) {    ///////////////// SOLVE MESSAGE /////////////
       if (!fgets(buf, sizeof(buf), f)) {
         return ReportEarlyEof();
@@ -219,8 +222,9 @@ bad_nOpts:
           *++se = 0;
           break;
         }
-      if (*buf == '\n')
+      if (line_start && *buf == '\n')
         break;
+      line_start = se > buf && se[-1] == '\n';
       n1 = se - buf;
       b1 = buf;
       if (buf[0] == '\b' && bs) {
